@@ -89,9 +89,11 @@ HexSeedDef(k) ==
     [] k = 8 -> [nv |-> 24, cubes |-> [n \in 1 .. 6 |-> <<GCube(3,2,(n-1) % 3, (n-1) \div 3, 0), ((n * 5) % 24) + 1>>]]
     [] k = 9 -> [nv |-> 64, cubes |-> [n \in 1 .. 27 |-> <<GCube(3,3,(n-1) % 3, ((n-1) \div 3) % 3, (n-1) \div 9), ((n * 11) % 24) + 1>>]]  \* 3x3x3: an interior cell
 HV(l) == KLF("hex_add_cell_v", l, TRUE)
-HexSeed(k) == LET d == HexSeedDef(k) IN
+HexSeed(k) == IF k = 10 THEN   \* one cube and a "flap": a quad that shares only the edge (0,1) with it
+                  NV(10) \o << HV(GCube(1,1,0,0,0)), FV(<<1, 0, 8, 9>>) >> ELSE
+              LET d == HexSeedDef(k) IN
   NV(d.nv) \o [n \in 1 .. Len(d.cubes) |-> HV(RotList(d.cubes[n][1], d.cubes[n][2]))]
-HexCubesOf(k) == LET d == HexSeedDef(k) IN {d.cubes[n][1] : n \in 1 .. Len(d.cubes)}
+HexCubesOf(k) == IF k = 10 THEN {GCube(1,1,0,0,0)} ELSE LET d == HexSeedDef(k) IN {d.cubes[n][1] : n \in 1 .. Len(d.cubes)}
 
 XSeedScript(k) == IF Kind = "tet" THEN TetSeed(k) ELSE HexSeed(k)
 XModeCalls(md) == << KF("enable_deferred", md[1]), KF("enable_fast", md[2]) >>
@@ -139,6 +141,17 @@ XCallsOf(st, op, key) ==
                  /\ y[2] \notin Rng(HFVerts(st, y[1]))
                  /\ (y[3] = 0 \/ y[4])
                  /\ TetFreeToAdd(st, Append(HFVerts(st, y[1]), y[2]))}}
+    (* a new tetrahedron on a free halfface and a vertex outside the complex, in all 12 orientation-preserving  *)
+    (* vertex orders (the shared face is opposite list position 0, 1, 2, 3 in turn), both vertex forms          *)
+    [] op = "tet_add_cell_v12" ->
+         LET even == {p \in [1 .. 4 -> 1 .. 4] : Cardinality(Rng(p)) = 4 /\ Inversions(p) % 2 = 0}
+             bases == {Append(HFVerts(st, y[1]), y[2]) : y \in
+                         {z \in FreeHF(st) \X FirstN(IsolatedV(st) \cup {v \in LiveV(st) : \A c \in LiveC(st) : v \notin CellVertSet(st, c)}, 2) :
+                             /\ Len(At(st.faces, Full(z[1]))) = 3 /\ ~BndHF(st, Opp(z[1]))
+                             /\ z[2] \notin Rng(HFVerts(st, z[1]))
+                             /\ TetFreeToAdd(st, Append(HFVerts(st, z[1]), z[2]))}}
+         IN {KLF("tet_add_cell_v", [i \in 1 .. 4 |-> b[p[i]]], ck) : b \in bases, p \in even, ck \in BOOLEAN}
+            \cup {KLF("tet_add_cell_4", [i \in 1 .. 4 |-> b[p[i]]], FALSE) : b \in bases, p \in even}
     [] op = "tet_add_cell_v_taken" ->   \* vertex form with topology check on a place that is already occupied: rejected
          {KLF("tet_add_cell_v", Append(HFVerts(st, x[1]), x[2]), TRUE) : x \in
              {y \in FreeHF(st) \X LiveV(st) :
@@ -180,6 +193,12 @@ XCallsOf(st, op, key) ==
          {KLF("add_face", x[1], x[2]) : x \in {y \in ls \X BOOLEAN : y[2] \/ Len(y[1]) # 4 \/ ClosedLoop(st, y[1])}}
          \cup {KL("add_face_v", l) : l \in {l \in [1 .. 3 -> FirstN(LiveV(st), 5)] : Cardinality(Rng(l)) = 3}}
          \cup {KL("add_face_v", l) : l \in {l \in [1 .. 5 -> FirstN(LiveV(st), 5)] : Cardinality(Rng(l)) = 5 /\ l[1] < l[2]}}
+    (* without topology check: the given list is stored as it is (C11 stage; the result is outside the  *)
+    (* contracts of C15 / C16, so only as a last step)                                                  *)
+    [] op = "add_cell4_unchecked" -> {KLF("add_cell", SortedSeq(S), FALSE) : S \in KSub(4, FirstN(FreeHF(st), 7))}
+    [] op = "add_cell6_unchecked" ->
+         {KLF("add_cell", l, FALSE) : l \in UNION {{SortedSeq(S), RotL(Rev(SortedSeq(S)), 2)} : S \in Free6(st, key)}}
+         \cup {KLF("add_cell", SortedSeq(S), FALSE) : S \in KSub(6, FirstN(FreeHF(st), 7))}
     [] op = "split_edge" -> {K(op, h, v, <<>>, FALSE) : h \in LiveHE(st), v \in FirstN(IsolatedV(st), 1)}
     [] op = "split_face" -> {K(op, f, v, <<>>, FALSE) : f \in LiveF(st), v \in FirstN(IsolatedV(st), 1)}
     (* hexahedral: every ordering of every closed set of six free halffaces *)
@@ -197,7 +216,7 @@ XCallsOf(st, op, key) ==
          {KLF("add_cell", SortedSeq(S), TRUE) : S \in KSub(6, FirstN(FreeHF(st), 9))}
     [] op = "hex_add_cell_v" ->         \* a missing cube of the seed's shape, in all 24 vertex orders
          (* only while the seed's vertex numbering is intact (no vertex slot was removed) *)
-         IF st.nv # HexSeedDef(key[2]).nv THEN {} ELSE
+         IF key[2] = 10 \/ st.nv # HexSeedDef(key[2]).nv THEN {} ELSE
          {KLF(op, RotList(x[1], x[2]), x[3]) : x \in
              {y \in HexCubesOf(key[2]) \X (1 .. 24) \X BOOLEAN :
                  /\ Rng(y[1]) \subseteq LiveV(st)
@@ -271,25 +290,17 @@ ModelSplitProps(pre, c, m) ==
         /\ fresh(m.pE, "E") /\ fresh(m.pHE, "HE") /\ fresh(m.pF, "F") /\ fresh(m.pHF, "HF")
         /\ SplitChildrenOK(pre, S, n, m, [v |-> Iota(Len(pre.cells)), d |-> DefaultTok], [v |-> m.pC, d |-> DefaultTok])
 
-(* add_halfface(halfedges, check): an invalid handle and nothing changed, or  *)
-(* an existing halfface that contains the first two halfedges and nothing     *)
-(* changed, or exactly one triangle appended whose halfface 0 is returned     *)
-AddHalffaceRel(pre, c, post, ret) ==
-  IF ret < 0 THEN Unchanged(pre, post)
-  ELSE IF ret < NHF(pre)
-       THEN /\ Unchanged(pre, post) /\ ret \in LiveHF(pre)
-            /\ {c.l[1], c.l[2]} \subseteq Rng(HFHes(pre, ret))
-       ELSE /\ ret = 2 * Len(pre.faces) /\ Len(c.l) = 3 /\ (c.f => ClosedLoop(pre, c.l))
-            /\ AppendRel(pre, post, "F", c.l)
-
 XModelCheck(pre, c, m) ==
+  LET Unchecked == c.op = "add_cell" /\ ~c.f IN     \* stored at the caller's risk: no shape / convention / query contract
   IF m.err # "" THEN "NoInternalError:" \o m.err
   ELSE IF ~WellFormed(m) THEN "WellFormed"
   ELSE IF ~CountersConsistent(m) THEN "CountersConsistent"
   ELSE IF Manifoldish(pre) /\ ~Manifoldish(m) THEN "HalffaceInTwoCells:" \o c.op
   ELSE IF Manifoldish(m) /\ ~CacheIsInverse(m) THEN "CacheIsInverse"
   ELSE IF Kind = "tet" THEN
-       (IF ~TetShape(m) THEN "C15:TetShape"
+       (IF ~Unchecked /\ ~TetShape(m) THEN "C15:TetShape"
+        ELSE IF c.op = "add_face" /\ ~ValAddFaceC11(pre, 3, c, m, m.ret) THEN "C11:add_face"
+        ELSE IF c.op = "add_cell" /\ ~TetAddCellC11(pre, c, m, m.ret) THEN "C11:add_cell"
         ELSE IF c.op = "collapse_edge" /\ CollapseInContract(pre, c.a) /\ ~CollapseRel(pre, c.a, m, m.ret, m.gV)
              THEN "C15:CollapseRel"
         ELSE IF c.op = "collapse_edge" /\ CollapseInContract(pre, c.a) /\ ~ModelCollapseProps(pre, c.a, m) THEN "C03:ModelCollapseProps"
@@ -299,9 +310,12 @@ XModelCheck(pre, c, m) ==
         ELSE IF c.op \in {"add_face", "add_cell"} /\ m.ret = -1 /\ ~Unchanged(pre, m) THEN "RejectLeavesUnchanged"
         ELSE IF c.op = "add_halfface" /\ ~AddHalffaceRel(pre, c, m, m.ret) THEN "AddHalffaceRel"
         ELSE IF c.op \notin TetOps /\ ~StepRel(pre, c, m, m.ret, ModelMap(m)) THEN "StepRel"
-        ELSE IF Manifoldish(m) /\ ~ModelQueriesTet(m) THEN "C15:QueryContracts"
+        ELSE IF ~Unchecked /\ Manifoldish(m) /\ ~ModelQueriesTet(m) THEN "C15:QueryContracts"
         ELSE "")
-  ELSE (IF ~HexShape(m) THEN "C16:HexShape"
+  ELSE (IF c.op = "add_face" /\ ~ValAddFaceC11(pre, 4, c, m, m.ret) THEN "C11:add_face"
+        ELSE IF c.op = "add_cell" /\ ~HexAddCellC11(pre, c, m, m.ret) THEN "C11:add_cell"
+        ELSE IF Unchecked THEN ""
+        ELSE IF ~HexShape(m) THEN "C16:HexShape"
         ELSE IF ~HexConventionAll(m) THEN "C16:HexConvention"
         ELSE IF c.op = "add_cell" /\ c.f /\ ~HexAddCellRel(pre, c.l, m, m.ret) THEN "C16:HexAddCellRel"
         ELSE IF c.op = "hex_add_cell_v" /\ ~HexAddCellVRel(pre, c.l, m, m.ret) THEN "HexAddCellVRel"
